@@ -162,6 +162,9 @@ let print_static l statics =
   Printf.printf "RUNS eq %s\n" (ridx (runs_eq l));
   Printf.printf "RUNS lex %s\n" (ridx (runs_lex l));
   Printf.printf "PADFREE %d\n" (if padfree l then 1 else 0);
+  (let sa = int_of_z (sA l) in
+   let ks = List.init (min (2 * sa) 512) (fun k -> k) in
+   Printf.printf "FIRST %s\n" (String.concat " " (List.map (fun k -> string_of_int (int_of_z (first_align l (z_of_int k)) - k)) ks)));
   List.iter (function
     | `Static f ->
         let (sz, st) = esize l (List.map z_of_int f) in
